@@ -923,6 +923,13 @@ struct AttrConcrete {
     dur_ms: Duration,
     #[metrics(unit = mu::Microsecond)]
     dur_us: Option<Duration>,
+    // a unit together with `no_close` (the field is written as it is, not closed first)
+    #[metrics(unit = mu::Second, no_close)]
+    dur_s_no_close: Duration,
+    #[metrics(unit = mu::Kilobyte, no_close)]
+    tbit_as_kb_no_close: Tagged<mu::Terabit>,
+    #[metrics(unit = mu::Megabyte, no_close)]
+    size_no_close: u64,
 }
 
 fn attr_concrete(st: &mut St) {
@@ -949,6 +956,9 @@ fn attr_concrete(st: &mut St) {
             dur_s: d,
             dur_ms: d,
             dur_us: Some(d),
+            dur_s_no_close: d,
+            tbit_as_kb_no_close: Tagged::new(x),
+            size_no_close: n,
         };
         let root = RootEntry::new(m.close());
         let ew = written(&root);
@@ -969,6 +979,9 @@ fn attr_concrete(st: &mut St) {
         check_duration(st, "attribute-duration", "duration", &[d], &info("Second"), false, &get("dur_s"), 4.0);
         check_duration(st, "attribute-duration", "duration", &[d], &info("Millisecond"), false, &get("dur_ms"), 4.0);
         check_duration(st, "attribute-duration", "duration", &[d], &info("Microsecond"), false, &get("dur_us"), 4.0);
+        check_duration(st, "attribute-duration-no-close", "duration", &[d], &info("Second"), false, &get("dur_s_no_close"), 4.0);
+        check_metric(st, "attribute-concrete-no-close", &info("Terabit"), &info("Kilobyte"), ref_ratio(&info("Terabit"), &info("Kilobyte")), true, &[x], &get("tbit_as_kb_no_close"), false, 4.0);
+        check_metric(st, "attribute-concrete-no-close", &none, &info("Megabyte"), (1, 1), true, &[Observation::Unsigned(n)], &get("size_no_close"), false, 4.0);
     }
 }
 
